@@ -455,7 +455,7 @@ func runC11Prog(p c11Prog, fireAt int, useCtx, track bool, limit string, recordA
 	}()
 	select {
 	case <-done:
-	case <-time.After(8 * time.Second):
+	case <-time.After(60 * time.Second):
 		atomic.AddInt32(&c11Timeouts, 1)
 		res.res = "timeout"
 	}
@@ -623,7 +623,7 @@ func execC11Block(kind, ctxS, readyS, cancelS, where string) string {
 	expectReturn := readyS == "1" || (ctxS == "1" && cancelS == "1")
 	wait := 250 * time.Millisecond
 	if expectReturn {
-		wait = 10 * time.Second
+		wait = 60 * time.Second
 	}
 	var reply string
 	select {
@@ -776,7 +776,7 @@ func execC11Script(ops []Op) []string {
 	}()
 	select {
 	case <-done:
-	case <-time.After(8 * time.Second):
+	case <-time.After(60 * time.Second):
 		return []string{"X timeout => " + line}
 	}
 	if strings.HasPrefix(res, "gopanic") {
